@@ -37,8 +37,12 @@ impl ConfigValidator {
         let mut errors = vec![];
 
         let mut req = self.required.clone();
-        for (key, _) in kvps.iter().sorted_by_key(|(k, _)| &k.data) {
-            if req.contains(&key.data) {
+        let mut seen: HashSet<&String> = HashSet::new();
+        for (key, _) in kvps.iter().sorted_by_key(|(k, _)| (&k.data, k.span.low())) {
+            if !seen.insert(&key.data) {
+                // (only the first one would be looked at)
+                errors.push((Some(key.span), format!("duplicate field: {}", key.data)));
+            } else if req.contains(&key.data) {
                 req.remove(&key.data);
             } else if !self.allowed.contains(&key.data) {
                 errors.push((Some(key.span), format!("field not allowed: {}", key.data)));
